@@ -68,6 +68,12 @@ prop("C08", claimed=True, level="model_checking", engine="E-SEQ",
      note="Bounded families; numeric columns are compared numerically (the writer may store u64 values as i64); -0.0 / +0.0 membership in a range is left open; JSON sub-path columns are exercised through C14 / C02 dumps.",
      design_ref="3/C08")
 
+prop("C09", claimed=True, level="model_checking", engine="E-SEQ",
+     technique="bounded-exhaustive enumeration of document sequences x store configurations x access orders x merges on the real doc store, compared value by value with the documents that were added",
+     text="Every sequence of <= 2 (thorough 3) documents from a 20-document alphabet (empty, each value type, several values per field, deep / edge-case JSON, unicode, 40 kB text, stored + non-stored fields, lengths at the vint prefix boundaries) under none / lz4 / zstd x block size 1 / 64 / 16384 x dedicated compression thread; patterned stores of 7..513 documents crossing the 8-way skip-index layers, with deletes; merges of two segments for every pair of compressors (stacking vs re-compression, both source orders, delete patterns incl. a whole source and all documents); 2 MiB values around 2^21. Every live document through Searcher::doc, StoreReader::get with cache sizes 0 / 1 / 10 in forward, reverse, repeated and interleaved orders, and store iteration in doc-id order; non-stored fields never returned.",
+     note="Alphabet and sizes are bounded; values are compared as (field, OwnedValue) lists in insertion order.",
+     design_ref="3/C09")
+
 ALL = ["C%02d" % i for i in range(1, 21)]
 REASON_TODO = "check not built yet in this revision of /verif (design in DESIGN.md section 3); will be claimed when its engine lands"
 
